@@ -250,7 +250,7 @@ Step(sc, mode, k) ==
         okRef == OutcomeAgrees(mode, impl.o, ref[1], ill, HasCall(ast))
         (* after an error the functions may or may not have been called, as far as the reference goes *)
         stOK == IF mode = "T" THEN implSt = rstate[k]
-                ELSE IF IsErr(impl.o) THEN ErrStateOK(rstate[k], EvalAll(ast, <<>>, sc, rstate[k], <<>>)[2], implSt)
+                ELSE IF IsErr(impl.o) \/ IsAny(ref[1]) THEN ErrStateOK(rstate[k], EvalAll(ast, <<>>, sc, rstate[k], <<>>)[2], implSt)
                 ELSE implSt = ref[2]
         others == \A j \in Copies \ {k} : RefStateOf(ast, impl.s, j) = RefStateOf(ast, fstate, j)
         viol == IF impl.o # fresh.o \/ RefStateOf(ast, fresh.s, k) # implSt THEN <<"CacheIrrelevant", sc, mode, k, impl.o, fresh.o>>
@@ -263,7 +263,7 @@ Step(sc, mode, k) ==
     IN /\ bad = <<>>
        /\ cache' = impl.c
        /\ fstate' = impl.s
-       /\ rstate' = [rstate EXCEPT ![k] = IF mode = "T" THEN @ ELSE IF IsErr(impl.o) THEN implSt ELSE ref[2]]
+       /\ rstate' = [rstate EXCEPT ![k] = IF mode = "T" THEN @ ELSE IF IsErr(impl.o) \/ IsAny(ref[1]) THEN implSt ELSE ref[2]]
        /\ bad' = viol
        /\ UNCHANGED <<ast, cache0>>
 
